@@ -162,6 +162,11 @@ MULDIV = ["mul", "div", "udiv", "mod", "umod"]
 GRID = [0, 1, 2, 3, -1, -2, 0x7fffffff, 0x80000000, 0xffffffff, 0x100000000, 0x7fffffffffffffff, -0x8000000000000000, 0x123456789, -0x123456789]
 
 
+# modules on which the real translator is known to fail (crash / hang / rejected output / wrong code): each gets a unit of its own, so
+# that obligation names are stable and the counterexample trace stays small; everything else is grouped MAXMOD modules per unit
+SOLO = {"br_switch", "imm_ld", "imm_inf_f", "imm_inf_d", "imm_inf_ld", "mem_ld", "dat_fp", "dat_sect", "dat_expr", "ops_ld_mov", "mem_alloca", "ops_conv_ld"}
+
+
 class Corpus:
     """one family, written as unit files of at most MAXMOD modules (small units: small goto binaries, and CBMC's counterexample
     trace - needed to confirm a violation natively - is superlinear in the static data of the unit)"""
@@ -186,7 +191,7 @@ class Corpus:
             lines += ["  " + b if not b.endswith(":") else b for b in body]
             lines.append("  endfunc")
         lines.append("  endmodule")
-        if solo:
+        if solo or name in SOLO:
             self.solos.append((name, lines))
         else:
             self.mods.append(lines)
@@ -332,13 +337,14 @@ def corpus(outdir, tier):
     for t in scal:
         rt = "i64" if t not in M.FP_TYPES else t
         mv = {"f": "fmov", "d": "dmov", "ld": "ldmov"}.get(t, "mov")
-        it = ["px: proto %s, %s:a" % (t, t), "pg: proto %s, %s:a" % (t, t), "  import c20x_" + t]
+        xt = t if t != "ld" else "i64"  # an external's ld result would expose the stale upper bytes of the interpreter's result slot (harness artefact)
+        it = ["px: proto %s, %s:a" % (xt, t), "pg: proto %s, %s:a" % (t, t), "  import c20x_" + t]
         g = ("c20_g_" + t, "%s, %s:a" % (t, t), ["ret a"])
-        f1 = ("c20_cx_" + t, "%s, %s:a" % (rt, rt), ["local %s:r" % rt, "call px, c20x_%s, r, a" % t, "ret r"])
+        f1 = ("c20_cx_" + t, "%s, %s:a" % (rt if t != "ld" else "i64", rt), ["local %s:r" % (rt if t != "ld" else "i64"), "call px, c20x_%s, r, a" % t, "ret r"])
         f2 = ("c20_cm_" + t, "%s, %s:a" % (rt, rt), ["local %s:r" % rt, "call pg, c20_g_%s, r, a" % t, "ret r"])
         u.module("call_" + t, it, [g, f1, f2], [g[0], f1[0], f2[0]])
     u.module("call_misc", ["pv: proto i32, p:s, i64:a, ...", "p0: proto", "pb: proto i64, blk:16(b), i64:v", "  import c20x_v, c20x_0"],
-             [("c20_gb", "i64, blk:16(b), i64:v", ["local i64:r", "mov r, i64:(b)", "mov i64:(b), v", "xor r, r, i64:8(b)", "ret r"]),
+             [("c20_gb", "i64, blk:16(b), i64:v", ["local i64:r", "mov r, i64:(b)", "or v, v, 0x5a5a", "mov i64:(b), v", "xor r, r, i64:8(b)", "ret r"]),
               ("c20_cv", "i64, i64:a", ["local i64:r", "call pv, c20x_v, r, \"fmt\", a, a, 2.5", "call p0, c20x_0", "ret r"]),
               ("c20_cb", "i64, p:buf, i64:v", ["local i64:r", "call pb, c20_gb, r, blk:16(buf), v", "xor r, r, i64:(buf)", "ret r"])], ["c20_cv", "c20_cb buf=buf16"], solo=True)
     units.append(u)
